@@ -1795,6 +1795,7 @@ func RunFrame(frame *py.Frame) (res py.Object, err error) {
 		if debugging {
 			debugf("* %4d:", frame.Lasti)
 		}
+		verifPc := frame.Lasti
 		opcode = OpCode(opcodes[frame.Lasti])
 		frame.Lasti++
 		if opcode.HAS_ARG() {
@@ -1814,6 +1815,7 @@ func RunFrame(frame *py.Frame) (res py.Object, err error) {
 			}
 		}
 		vm.extended = false
+		verifInstr(frame, opcode, arg, verifPc)
 		err = jumpTable[opcode](&vm, arg)
 		if err != nil {
 			// FIXME shouldn't be doing this - just use err?
